@@ -42,6 +42,12 @@ def plan(ctx):
         if q.name.split('/')[0] in ('enable_disable', 'disable_in_at'):
             q.name = 'action_class/' + q.name
             qs.append(q)
+    # the entry points parse<>() / parse_nested<>() hand the requested modes on to the top-level rule
+    import os, vf
+    eu = ctx.unit('c04_entry', cpp=os.path.join(vf.VERIF, 'harness', 'c04_entry.cpp'))
+    qs.append(vf.Query('entry_points', eu, os.path.join(vf.VERIF, 'harness', 'c04_entry.c'), unwind=6, mem_gb=2,
+                       bounds={'N': 2, 'K': 2, 'grammar': 'named< 0, sym<0>, sym<1> > with a void action', 'entry': ['parse< G, A, C, action, required >', 'parse< ..., nothing, optional >', 'parse_nested< ..., action, optional >', 'parse_nested< ..., nothing, required >']},
+                       note='parse() and parse_nested() run the top-level rule with the requested apply mode (actions iff enabled) and rewind mode'))
     # every other combinator hands its apply mode on to its sub-rules unchanged (otherwise actions below it fire in disabled / look-ahead
     # sections, or are lost where they are enabled): the rule-by-rule harness of C09 checks the apply mode every sub-rule call receives
     from props import C09
